@@ -382,6 +382,14 @@ func methodGen(abstractClass bool) *rapid.Generator[JMethod] {
 				pos = rapid.IntRange(0, len(mods)).Draw(t, "annotationPos")
 			}
 			mods = append(mods[:pos], append([]string{a}, mods[pos:]...)...)
+			if (a == "@Nullable" || a == "@CheckForNull") && rapid.IntRange(0, 2).Draw(t, "bothNullAnnotations") == 2 {
+				// both nullability annotations on one method: it is still listed once
+				other := "@CheckForNull"
+				if a == other {
+					other = "@Nullable"
+				}
+				mods = append(mods[:pos+1], append([]string{other}, mods[pos+1:]...)...)
+			}
 			m.OwnLine = pos == 0 && rapid.Bool().Draw(t, "ownLine")
 		}
 		m.Mods = mods
